@@ -298,6 +298,154 @@ def original_block(op, operands, ctx_lines):
     return blk
 
 
+def interp(fn, inputs, fuel=400):
+    """observations of a (small, call-free) venom function on the real IR objects: stored values and assert outcomes,
+    in order, with control flow (jmp/jnz/phi).  inputs: calldata offset -> word.  Raises KeyError on unknown opcodes."""
+    from vyper.venom.basicblock import IRLabel, IRLiteral, IRVariable
+    env, obs = {}, []
+    bb, prev = fn.entry, None
+    while fuel > 0:
+        nxt = None
+        for inst in bb.instructions:
+            fuel -= 1
+            opc = inst.opcode
+
+            def val(o):
+                if isinstance(o, IRLiteral):
+                    return o.value % W
+                if isinstance(o, IRVariable):
+                    return env[o.name]
+                return 0
+            if opc == "phi":
+                for lbl, var in inst.phi_operands:
+                    if prev is not None and lbl.value == prev.label.value:
+                        env[inst.output.name] = val(var)
+                continue
+            if opc == "nop":
+                continue
+            vals = [val(o) for o in inst.operands]
+            if opc == "calldataload":
+                env[inst.output.name] = inputs.get(vals[0], 0)
+            elif opc == "mstore":
+                obs.append(("mstore", vals[1], vals[0]))
+            elif opc in ("assert", "assert_unreachable"):
+                obs.append((opc, vals[0] != 0))
+                if vals[0] == 0:
+                    return obs
+            elif opc == "jmp":
+                nxt = fn.get_basic_block(inst.operands[0].value)
+            elif opc == "jnz":
+                nxt = fn.get_basic_block(inst.operands[1].value if vals[0] != 0 else inst.operands[2].value)
+            elif opc in ("stop", "return", "revert"):
+                return obs
+            else:
+                env[inst.output.name] = w_eval(opc, list(reversed(vals)))
+        if nxt is None:
+            return obs
+        prev, bb = bb, nxt
+    return obs + [("out-of-fuel",)]
+
+
+def search_fn(text, run_pass, grid=None):
+    """run `run_pass(fn)` on a fresh parse of `text`; compare observations before/after on an input grid"""
+    from vyper.venom.parser import parse_venom
+    f0 = list(parse_venom(text).functions.values())[0]
+    f1 = list(parse_venom(text).functions.values())[0]
+    run_pass(f1)
+    for xv in (grid or GRID):
+        for yv in (0, 1, 5, W - 1):
+            inp = {0: xv, 32: yv}
+            try:
+                a, b = interp(f0, inp), interp(f1, inp)
+            except KeyError:
+                return None
+            if a != b:
+                return {"calldata_words": {"0": hex(xv), "32": hex(yv)}, "before": str(a), "after": str(b), "after_pass": str(f1)}
+    return None
+
+
+SCCP_SCENARIOS = [
+    # phi of two different constants / equal constants / constant and unknown; branch folding; chained arithmetic
+    """function s {
+s:
+    %c = calldataload 0
+    jnz %c, @a, @b
+a:
+    %v1 = 1
+    jmp @j
+b:
+    %v2 = 2
+    jmp @j
+j:
+    %p = phi @a, %v1, @b, %v2
+    %q = add %p, 10
+    mstore 0, %q
+    stop
+}
+""",
+    """function s {
+s:
+    %c = calldataload 0
+    jnz %c, @a, @b
+a:
+    %v1 = 7
+    jmp @j
+b:
+    %v2 = calldataload 32
+    jmp @j
+j:
+    %p = phi @a, %v1, @b, %v2
+    %q = iszero %p
+    jnz %q, @t, @f
+t:
+    mstore 0, 1
+    stop
+f:
+    mstore 0, 2
+    stop
+}
+""",
+    """function s {
+s:
+    %c = calldataload 0
+    %k = sub 3, 3
+    jnz %k, @a, @b
+a:
+    mstore 0, 11
+    jmp @j
+b:
+    %z = lt %c, 5
+    mstore 0, %z
+    jmp @j
+j:
+    %w = sdiv 7, 0
+    mstore 32, %w
+    stop
+}
+""",
+]
+
+
+def search_sccp():
+    from vyper.venom.analysis import IRAnalysesCache
+    from vyper.venom.passes.sccp import SCCP
+
+    def run(fn):
+        SCCP(IRAnalysesCache(fn), fn).run_pass()
+    for text in SCCP_SCENARIOS:
+        w = search_fn(text, run, grid=[0, 1, 2, 4, 5, 6, W - 1])
+        if w is not None:
+            w["venom"] = text
+            return w
+    return None
+
+
+def run_alg(fn):
+    from vyper.venom.analysis import IRAnalysesCache
+    from vyper.venom.passes import AlgebraicOptimizationPass
+    AlgebraicOptimizationPass(IRAnalysesCache(fn), fn).run_pass()
+
+
 # ------------------------------------------------------------------ the family
 CTX_SENSITIVE = ("or", "eq", "gt", "lt", "sgt", "slt")     # rules that look at the users
 FEW_CTX = [0, 1, 5]                                        # plain, iszero_plain, assert
@@ -367,31 +515,43 @@ def part_peephole(ctx):
     n_rewritten = 0
     by_rule = {}
     bad = 0
+    mism = []
     for c, z, rb in zip(fam, flat, real):
         dec = decode_result(z)
         exp = expected_block(dec, CONTEXTS[c["ctx"]][1])
         orig = original_block(c["op"], c["operands"], CONTEXTS[c["ctx"]][1])
-        changed = rb != orig
-        if changed:
+        if rb != orig:
             n_rewritten += 1
             by_rule[c["op"]] = by_rule.get(c["op"], 0) + 1
         if exp != rb:
             bad += 1
-            if bad > 3:
-                continue
-            text = case_text("f", c["op"], c["operands"], CONTEXTS[c["ctx"]][1])
-            w = search_block(orig, rb)
-            detail = {"venom": text, "context": CONTEXTS[c["ctx"]][0], "real_pass_output": fmt_block(rb),
-                      "model_output": fmt_block(exp),
-                      "call": "AlgebraicOptimizationPass(IRAnalysesCache(fn), fn).run_pass() on parse_venom(venom)"}
-            if w is not None:
-                detail.update({"operand_values": w, "oracle": "observations (stored values, assert/jnz outcomes) of the block "
-                               "before vs after the real pass, evaluated with EVM word semantics"})
-                ctx.violation("failing-input", "AlgebraicOptimizationPass changes the behaviour of an instruction", detail,
-                              key=f"algebraic:{c['op']}:{CONTEXTS[c['ctx']][0]}")
-            else:
-                ctx.violation("correspondence-broken", f"alg_rewrite model differs from AlgebraicOptimizationPass on {c['op']} "
-                              f"({CONTEXTS[c['ctx']][0]})", detail)
+            mism.append((c, exp, rb, orig))
+    # Search: a difference with a witness is a failing input; differences without one are reported only if no
+    # witness was found at all (the same defect usually shows in many family members, some behaviour-neutral)
+    wit, nowit = [], []
+    for (c, exp, rb, orig) in mism[:400]:
+        w = search_block(orig, rb)
+        (wit if w is not None else nowit).append((c, exp, rb, w))
+        if len(wit) >= 3:
+            break
+    for (c, exp, rb, w) in (wit[:3] if wit else nowit[:3]):
+        text = case_text("f", c["op"], c["operands"], CONTEXTS[c["ctx"]][1])
+        detail = {"venom": text, "context": CONTEXTS[c["ctx"]][0], "real_pass_output": fmt_block(rb),
+                  "model_output": fmt_block(exp), "family_members_differing": bad,
+                  "call": "AlgebraicOptimizationPass(IRAnalysesCache(fn), fn).run_pass() on parse_venom(venom)"}
+        if w is not None:
+            try:
+                inp = {0: int(w["x"], 16), 32: int(w["y"], 16)}
+                detail["pyrevm_through_real_backend"] = {"before_pass": evm_run(text, None, inp), "after_pass": evm_run(text, run_alg, inp)}
+            except Exception as ex:  # noqa
+                detail["pyrevm_through_real_backend"] = f"not available: {type(ex).__name__}: {ex}"
+            detail.update({"operand_values": w, "oracle": "observations (stored values, assert/jnz outcomes) of the block "
+                           "before vs after the real pass, evaluated with EVM word semantics"})
+            ctx.violation("failing-input", "AlgebraicOptimizationPass changes the behaviour of an instruction", detail,
+                          key=f"algebraic:{c['op']}:{CONTEXTS[c['ctx']][0]}")
+        else:
+            ctx.violation("correspondence-broken", f"alg_rewrite model differs from AlgebraicOptimizationPass on {c['op']} "
+                          f"({CONTEXTS[c['ctx']][0]})", detail)
     ctx.corr["peephole_family"] = len(fam)
     ctx.corr["peephole_rewritten_by_real_pass"] = n_rewritten
     ctx.corr["peephole_rewritten_per_opcode"] = by_rule
@@ -487,9 +647,14 @@ def part_misc(ctx):
         n += 1
         if got != want:
             bad += 1
-            w = None
-            ctx.violation("correspondence-broken", "_rewrite_iszero_uses: chain operand differs from chain_rewrite",
-                          {"venom": text, "real_operand": got, "model_operand": want, "depth": depth, "user": uname})
+            w = search_fn(text, run_alg)
+            detail = {"venom": text, "real_operand": got, "model_operand": want, "depth": depth, "user": uname}
+            if w is not None:
+                detail.update(w)
+                ctx.violation("failing-input", "AlgebraicOptimizationPass (_rewrite_iszero_uses) changes the behaviour of an iszero chain",
+                              detail, key=f"algebraic:iszero-chain:{uname}")
+            else:
+                ctx.violation("correspondence-broken", "_rewrite_iszero_uses: chain operand differs from chain_rewrite", detail)
             break
     # _handle_offset
     text = ("function o {\no:\n    %x = calldataload 0\n    %out = add @o, 4\n    %3 = add 4, @o\n    %4 = add %x, 4\n"
@@ -506,6 +671,162 @@ def part_misc(ctx):
         ctx.violation("correspondence-broken", "_handle_offset differs from handle_offset", {"venom": text, "real": got, "model": want})
     ctx.corr["misc_cases"] = n
     return n, bad
+
+
+# ------------------------------------------------------------------ composite programs (pass-level differential)
+FUZZ_LITS = [0, 1, 2, 3, 5, 8, 31, 32, 255, 256, H, H - 1, H + 1, W - 1, W - 2, -1, -2, -H, -H + 1]
+
+
+def gen_program(rnd, n):
+    """straight-line program mixing iszero chains, comparators, literals and several kinds of users, so that the
+    rules interact (stale chain targets, rewritten producers, single-use conditions)"""
+    lines = ["%x = calldataload 0", "%y = calldataload 32"]
+    vs = ["%x", "%y"]
+
+    def opnd():
+        if rnd.random() < 0.35:
+            return str(rnd.choice(FUZZ_LITS))
+        return rnd.choice(vs[-3:]) if rnd.random() < 0.6 else rnd.choice(vs)
+    for k in range(n):
+        r = rnd.random()
+        v = f"%v{k}"
+        if r < 0.3:
+            lines.append(f"{v} = iszero {rnd.choice(vs[-2:])}")
+        elif r < 0.35:
+            lines.append(f"{v} = not {opnd()}")
+        else:
+            op = rnd.choice(BIN_OPS if rnd.random() < 0.5 else ["gt", "lt", "sgt", "slt", "eq", "or"])
+            a, b = opnd(), opnd()
+            if a.lstrip("-").isdigit() and b.lstrip("-").isdigit():
+                a = rnd.choice(vs)
+            lines.append(f"{v} = {op} {a}, {b}")
+        vs.append(v)
+        if rnd.random() < 0.15:
+            lines.append(f"assert {v}")
+    off = 0
+    for v in rnd.sample(vs[2:], min(len(vs) - 2, rnd.randrange(1, 4))):
+        lines.append(f"mstore {off}, {v}")
+        off += 32
+    tail = ""
+    if rnd.random() < 0.4:
+        lines.append(f"jnz {vs[-1]}, @a, @b")
+        tail = "a:\n    mstore 320, 1\n    stop\nb:\n    mstore 320, 2\n    stop\n"
+    else:
+        lines.append("stop")
+    return "function f {\nf:\n    " + "\n    ".join(lines) + "\n" + tail + "}\n"
+
+
+def part_composite(ctx):
+    rnd = ctx.rng("c14a-composite")
+    n = 600 if ctx.tier == "quick" else 6000
+    grid = [0, 1, 2, 5, 31, 32, 255, H - 1, H, H + 1, W - 2, W - 1]
+    changed = 0
+    from vyper.venom.parser import parse_venom
+    for k in range(n):
+        text = gen_program(rnd, rnd.randrange(3, 10))
+        f = list(parse_venom(text).functions.values())[0]
+        s0 = str(f)
+        run_alg(f)
+        changed += str(f) != s0
+        w = search_fn(text, run_alg, grid=grid)
+        if w is not None:
+            ctx.violation("failing-input", "AlgebraicOptimizationPass changes the behaviour of a program",
+                          dict(w, venom=text, call="AlgebraicOptimizationPass(IRAnalysesCache(fn), fn).run_pass() on parse_venom(venom)",
+                               oracle="stored values / assert outcomes before vs after the pass, EVM word semantics"),
+                          key="algebraic:composite")
+            return k + 1, 1
+    ctx.corr["composite_programs"] = n
+    ctx.corr["composite_programs_changed_by_pass"] = changed
+    return n, 0
+
+
+# ------------------------------------------------------------------ the real back end + pyrevm as a second oracle
+MEM = 352
+
+
+def evm_run(text, run_pass, inputs, chain=None):
+    """compile the function with the real venom back end (stop -> return of the first MEM bytes of memory so that the
+    stores are observable), run it on pyrevm -> (ok, returndata hex)"""
+    from vyper.compiler.settings import OptimizationLevel
+    from vyper.ir.compile_ir import assembly_to_evm
+    from vyper.venom import generate_assembly_experimental
+    from vyper.venom.parser import parse_venom
+    from . import evm
+    pctx = parse_venom(text.replace("    stop\n", f"    return 0, {MEM}\n"))
+    fn = list(pctx.functions.values())[0]
+    if run_pass is not None:
+        run_pass(fn)
+    # the three normalisation passes every pipeline ends with (the code generator requires their output form)
+    from vyper.venom.analysis import IRAnalysesCache
+    from vyper.venom.passes import CFGNormalization, DFTPass, SingleUseExpansion
+    for f in pctx.functions.values():
+        ac = IRAnalysesCache(f)
+        for pcls in (SingleUseExpansion, DFTPass, CFGNormalization):
+            pcls(ac, f).run_pass()
+    r = assembly_to_evm(generate_assembly_experimental(pctx, OptimizationLevel.NONE))
+    code = r[0] if isinstance(r, tuple) else r
+    ch = chain or evm.Chain("cancun")
+    addr = ch.deploy(bytes([0x61]) + len(code).to_bytes(2, "big") + bytes([0x80, 0x60, 0x0C, 0x60, 0, 0x39, 0x60, 0, 0xF3]) + code)
+    data = b"".join(inputs.get(k, 0).to_bytes(32, "big") for k in (0, 32))
+    res = ch.call(addr, data)
+    return (res.ok, res.out.hex())
+
+
+def obs_to_evm(obs):
+    mem = bytearray(MEM)
+    for o in obs:
+        if o[0] in ("assert", "assert_unreachable") and not o[1]:
+            return (False, "")
+        if o[0] == "mstore":
+            mem[o[1]:o[1] + 32] = o[2].to_bytes(32, "big")
+    return (True, bytes(mem).hex())
+
+
+def part_evm_oracle(ctx):
+    """(a) the independent evaluator used by Search agrees with pyrevm on real back-end output;
+       (b) before/after the real pass agree on pyrevm (sample of the family + composite programs)"""
+    from vyper.venom.parser import parse_venom
+    from . import evm
+    rnd = ctx.rng("c14a-evm")
+    fam = family(ctx.tier)
+    pick = rnd.sample(fam, 220 if ctx.tier == "quick" else 1500)
+    texts = [case_text("f", c["op"], c["operands"], CONTEXTS[c["ctx"]][1]) for c in pick]
+    texts += [gen_program(rnd, rnd.randrange(3, 9)) for _ in range(80 if ctx.tier == "quick" else 600)]
+    ch = evm.Chain("cancun")
+    n = skipped = 0
+    vals = [0, 1, 2, 5, 255, H - 1, H, H + 1, W - 2, W - 1]
+    for text in texts:
+        for _ in range(2):
+            inp = {0: rnd.choice(vals), 32: rnd.choice(vals)}
+            try:
+                want = obs_to_evm(interp(list(parse_venom(text).functions.values())[0], inp))
+            except KeyError:
+                continue
+            try:
+                before = evm_run(text, None, inp, ch)
+            except Exception:  # noqa  (e.g. literals outside the word range cannot be assembled: not front-end output)
+                skipped += 1
+                continue
+            try:
+                after = evm_run(text, run_alg, inp, ch)
+            except Exception as ex:  # noqa
+                ctx.violation("correspondence-broken", "output of AlgebraicOptimizationPass cannot be compiled by the back end "
+                              f"although the input can: {type(ex).__name__}: {ex}", {"venom": text})
+                return n
+            n += 1
+            if before[0] != want[0] or (before[0] and before[1] != want[1]):
+                ctx.violation("correspondence-broken", "the word evaluator used by Search disagrees with pyrevm on back-end output",
+                              {"venom": text, "calldata_words": {k: hex(v) for k, v in inp.items()}, "evaluator": want, "pyrevm": before})
+                return n
+            if after[0] != before[0] or (before[0] and after[1] != before[1]):
+                ctx.violation("failing-input", "AlgebraicOptimizationPass changes the behaviour observed on pyrevm",
+                              {"venom": text, "calldata_words": {k: hex(v) for k, v in inp.items()}, "before_pass": before, "after_pass": after,
+                               "call": "AlgebraicOptimizationPass on parse_venom(venom); both versions compiled with the venom back end, run on pyrevm"},
+                              key="algebraic:evm")
+                return n
+    ctx.corr["evm_oracle_runs"] = n
+    ctx.corr["evm_oracle_skipped_uncompilable_input"] = skipped
+    return n
 
 
 # ------------------------------------------------------------------ SCCP lattice
@@ -544,6 +865,10 @@ def part_sccp(ctx):
         return [99]
 
     n = bad = 0
+    pending = []
+
+    def broken(name, detail):
+        pending.append((name, detail))
     # _meet on the full family
     real = [enc(S._meet(x, y)) for x in items for y in items]
     rnd = ctx.rng("sccp")
@@ -611,14 +936,14 @@ def part_sccp(ctx):
         n += 1
         if r != m:
             bad += 1
-            ctx.violation("correspondence-broken", "SCCP _meet differs from the lattice model",
+            broken("SCCP _meet differs from the lattice model",
                           {"x": str(x), "y": str(y), "real": r, "model": m, "legend": "[0]=TOP [1,v]=literal [2,n]=label [3]=BOTTOM"})
             break
     for l, r, m in zip(lists, real_all, split_results(outs[1])):
         n += 1
         if r != m:
             bad += 1
-            ctx.violation("correspondence-broken", "reduce(_meet, ., TOP) differs from meet_all", {"items": [str(x) for x in l], "real": r, "model": m})
+            broken("reduce(_meet, ., TOP) differs from meet_all", {"items": [str(x) for x in l], "real": r, "model": m})
             break
     # regroup model evals in case order
     model_eval = {op: split_results(o) for op, o in zip(op_order, outs[2:])}
@@ -630,10 +955,20 @@ def part_sccp(ctx):
         # literals are compared as words (eval_arith returns the unsigned representative)
         if r != m:
             bad += 1
-            ctx.violation("correspondence-broken", "SCCP._eval differs from sccp_eval",
+            broken("SCCP._eval differs from sccp_eval",
                           {"instruction": f"{op} {a}, {b}", "lattice_x": str(lx), "lattice_y": str(ly), "real": r, "model": m})
             break
     ctx.corr["sccp_cases"] = n
+    w = search_sccp()       # always run: SCCP on small CFGs (phi, branch folding) must not change observations
+    ctx.corr["sccp_scenarios"] = len(SCCP_SCENARIOS)
+    if w is not None:
+        # replace the no-witness reports of this part by the failing input
+        ctx.violation("failing-input", "SCCP changes the behaviour of a function", dict(w, call="SCCP(IRAnalysesCache(fn), fn).run_pass() on parse_venom(venom)",
+                      oracle="stored values / assert outcomes before vs after the pass, EVM word semantics",
+                      lattice_differences=[p[0] for p in pending]), key="sccp:scenario")
+    else:
+        for name, detail in pending[:3]:
+            ctx.violation("correspondence-broken", name, detail)
     return n, bad
 
 
@@ -671,9 +1006,15 @@ def part_algebraic(ctx):
         n2, b2 = part_misc(ctx)
         ctx.log(f"C14A peephole tie: {n1 + n2} cases, {b1 + b2} differences, {time.time() - t0:.1f}s")
         t0 = time.time()
+        n4, b4 = part_composite(ctx)
+        ctx.log(f"C14A composite programs: {n4}, {b4} behaviour changes, {time.time() - t0:.1f}s")
+        t0 = time.time()
+        n5 = part_evm_oracle(ctx)
+        ctx.log(f"C14A back end + pyrevm oracle: {n5} runs, {time.time() - t0:.1f}s")
+        t0 = time.time()
         n3, b3 = part_sccp(ctx)
         ctx.log(f"C14A sccp tie: {n3} cases, {b3} differences, {time.time() - t0:.1f}s")
-        total = n1 + n2 + n3
+        total = n1 + n2 + n3 + n4 + n5
     if not b["ok"] and len(ctx.violations) == nviol:
         ctx.violation("theorem-broken", f"{b.get('failed_lemma')} in {b['file']}",
                       {"theorem": b.get("failed_lemma"), "file": b["file"], "coq_output": b["out"][-1500:]})
